@@ -257,6 +257,8 @@ class EngineA:
             "r_ops": {op: sw.choice([1, 2, 3]) for op in READ_OPS},
             # how often the integers of a key arrive as numpy integer types / its arrays in another layout
             "p_ityp": sw.choice([0.0, 0.0, 0.25, 0.6]),
+            # how often a scalar right-hand side is a whole number given as a python int (into float storage too)
+            "p_intscalar": sw.choice([0.0, 0.0, 0.3, 0.6]),
         }
         if sum(cfg["w_ops"].values()) == 0:
             cfg["w_ops"]["w_subs"] = 1
@@ -435,6 +437,13 @@ class EngineA:
                 key.append(slice(0, g.randint(1, 2), None))
         return key
 
+    def _next_scalar(self, counter, g, cfg):
+        """A scalar right-hand side; in some runs whole numbers handed over as python ints."""
+        v = self._next_val(counter)
+        if self._val_scale == 1.0 and g.random() < cfg.get("p_intscalar", 0.0):
+            return int(counter[0])
+        return v
+
     def _next_val(self, counter) -> float:
         counter[0] += 1
         return float(counter[0]) if self._integer else (counter[0] + 0.5) * self._val_scale
@@ -550,7 +559,7 @@ class EngineA:
             if g.random() < cfg["p_ordergrow"] and N < MAX_ORDER:
                 extra = 1
             key = [self._int_index(m, d, g, cfg, True) for d in range(N)] + [g.randint(0, 1) for _ in range(extra)]
-            v = 0 if g.random() < cfg["p_zero"] else self._next_val(counter)
+            v = 0 if g.random() < cfg["p_zero"] else self._next_scalar(counter, g, cfg)
             return {"op": op, "key": enc(key), "val": v}
         if op == "w_subs":
             extra = 0
@@ -608,7 +617,7 @@ class EngineA:
             if kind == "tensor" and not kept:
                 kind = "scalar"
             if kind == "scalar":
-                rhs = {"kind": "scalar", "val": self._next_val(counter)}
+                rhs = {"kind": "scalar", "val": self._next_scalar(counter, g, cfg)}
             elif kind == "zero":
                 rhs = {"kind": "scalar", "val": 0}
             else:
@@ -624,7 +633,7 @@ class EngineA:
 
     def _gen_vals(self, count: int, g, cfg, counter):
         if count >= 1 and g.random() < 0.3:
-            return 0 if g.random() < cfg["p_zero"] else self._next_val(counter)
+            return 0 if g.random() < cfg["p_zero"] else self._next_scalar(counter, g, cfg)
         return [(0.0 if g.random() < cfg["p_zero"] else self._next_val(counter)) for _ in range(count)]
 
     def _gen_bad(self, w, cfg, g, counter):
